@@ -311,7 +311,7 @@ static void adversarial_rse(Out &o, Rng &r, int N, int nm) {
     case 3: n = (int)r.range(prec / 2, prec); break;
     default: n = (int)r.range(2, 300); break;
   }
-  if (P > 14 && n > 20000 && !r.chance(20)) n = (int)r.range(2, 3000);
+  if (n > 6000 && !r.chance(4)) n = (int)r.range(2, 3000);
   std::vector<uint64_t> f(n, 0);
   for (int i = 0; i < n; i++) {
     switch (kind) {
